@@ -3,6 +3,7 @@
 package main
 
 import (
+	"bytes"
 	"golang.org/x/crypto/argon2"
 	"verifharness/hx"
 )
@@ -14,28 +15,59 @@ func exec(line string) string {
 	}
 	old := argon2.VerifSetSSE4(o.Str("path") != "nosse4")
 	defer argon2.VerifSetSSE4(old)
-	pw, salt, secret, ad := o.Hex("pw"), o.Hex("salt"), o.Hex("secret"), o.Hex("ad")
+	// password, salt, secret and associated data are handed over in guarded buffers with spare capacity:
+	// they must come back unmodified, and nothing may be written into their capacity or around them
+	ar := hx.NewArena()
+	pw, salt := ar.In("pw", o.Hex("pw")), ar.In("salt", o.Hex("salt"))
+	var secret, ad []byte
+	if s := o.Hex("secret"); len(s) > 0 {
+		secret = ar.In("secret", s)
+	}
+	if s := o.Hex("ad"); len(s) > 0 {
+		ad = ar.In("ad", s)
+	}
 	t, m, p, l := uint32(o.U64("t")), uint32(o.U64("m")), uint8(o.U64("p")), uint32(o.U64("len"))
 	var key []byte
-	switch {
-	case o.Str("mode") == "i" && len(secret) == 0 && len(ad) == 0 && o.Str("api") != "hook":
-		key = argon2.Key(pw, salt, t, m, p, l)
-	case o.Str("mode") == "id" && len(secret) == 0 && len(ad) == 0 && o.Str("api") != "hook":
-		key = argon2.IDKey(pw, salt, t, m, p, l)
-	default:
-		mode := map[string]int{"d": 0, "i": 1, "id": 2}[o.Str("mode")]
-		if len(secret) == 0 {
-			secret = nil
+	panicked := false
+	func() {
+		defer func() {
+			if recover() != nil {
+				panicked = true
+			}
+		}()
+		switch {
+		case o.Str("mode") == "i" && len(secret) == 0 && len(ad) == 0 && o.Str("api") != "hook":
+			key = argon2.Key(pw, salt, t, m, p, l)
+		case o.Str("mode") == "id" && len(secret) == 0 && len(ad) == 0 && o.Str("api") != "hook":
+			key = argon2.IDKey(pw, salt, t, m, p, l)
+		default:
+			mode := map[string]int{"d": 0, "i": 1, "id": 2}[o.Str("mode")]
+			key = argon2.VerifDeriveKey(mode, pw, salt, secret, ad, t, m, p, l)
 		}
-		if len(ad) == 0 {
-			ad = nil
-		}
-		key = argon2.VerifDeriveKey(mode, pw, salt, secret, ad, t, m, p, l)
+	}()
+	mut := " mut=" + ar.Check()
+	if panicked {
+		return "panic" + mut
 	}
 	if uint32(len(key)) != l {
-		return "wrong-length"
+		return "wrong-length" + mut
 	}
-	return hx.Hex(key)
+	// a second derivation with the same contents in fresh arrays must give the same key (no hidden state
+	// keyed on the caller's buffers), while the first call's inputs are overwritten
+	first := append([]byte(nil), key...)
+	ar.Scribble()
+	for _, b := range [][]byte{pw, salt, secret, ad} {
+		for i := range b {
+			b[i] ^= 0xa5
+		}
+	}
+	if o.Str("mode") == "id" && o.Str("api") != "hook" && len(o.Hex("secret")) == 0 && len(o.Hex("ad")) == 0 && m <= 64 {
+		again := argon2.IDKey(o.Hex("pw"), o.Hex("salt"), t, m, p, l)
+		if !bytes.Equal(again, first) || !bytes.Equal(key, first) {
+			mut += ";second-call"
+		}
+	}
+	return hx.Hex(first) + mut
 }
 
 func blen(r *hx.Rand) int {
